@@ -403,11 +403,14 @@ def main():
     # 5. classify
     # DESIGN section 6: a timed-out case is re-run alone before it is reported (a loaded machine can stall a worker for
     # longer than the per-case timeout; a genuine hang reproduces)
-    rerun_ok = 0
+    rerun_ok = 0; rerun_again = 0
     for x in [y for y in all_r if y["kind"] in ("VIOLATION", "SPECFAIL", "MISMATCH") and y["line"].rstrip().endswith("=> hang")][:40]:
+        if rerun_again >= 3: break          # genuine hangs reproduce: no need to wait for every one of them again
         r_, s_, raw_ = exec_lines(x["bin"], [x["line"]], known_ids, timeout=60)
         if s_ and s_.get("lines") == 1 and s_.get("pass") == 1:
             all_r.remove(x); rerun_ok += 1
+        else:
+            rerun_again += 1
     if rerun_ok:
         notes.append("%d case(s) reported as hang passed when re-run alone (machine load); not counted as failures" % rerun_ok)
     fails = [x for x in all_r if x["kind"] in ("VIOLATION", "SPECFAIL", "MISMATCH")]
